@@ -22,15 +22,27 @@ func (fr *Frame) atAnchors(st *State, ins ssa.Instruction, after bool, extra map
 		if af != nil && af.contract != nil && len(af.contract.Ats) > 0 {
 			var exposed []string
 			for _, n := range fr.anchors[ins] {
-				base := n
-				if i := strings.LastIndex(n, "#"); i > 0 {
-					base = n[:i]
+				i := strings.LastIndex(n, "#")
+				if i <= 0 {
+					continue
 				}
+				base := n[:i]
+				var k int
+				fmt.Sscan(n[i+1:], &k)
 				if base == "return" || base == "panic" || strings.HasPrefix(base, "defer") {
 					continue
 				}
-				if !af.hasAnchorBase(base) {
-					exposed = append(exposed, n)
+				// lift the ordinal through the chain of inlined frames up to the contract's function
+				ok := true
+				for f := fr; f != af; f = f.parent {
+					if f.parent == nil || f.callSite == nil || f.parent.inlineBase == nil || f.parent.inlineBase[f.callSite] == nil {
+						ok = false
+						break
+					}
+					k += f.parent.inlineBase[f.callSite][base]
+				}
+				if ok {
+					exposed = append(exposed, fmt.Sprintf("%s#%d", base, k))
 				}
 			}
 			if len(exposed) > 0 {
@@ -77,6 +89,27 @@ func (fr *Frame) atAnchorsNamed(st *State, ins ssa.Instruction, after bool, extr
 			continue
 		}
 		r.usedAts[fr.fname+"|"+ac.Anchor+"|"+ac.Text] = true
+		if ac.Kind == "assert" && r.dry == 0 && st.pc != "false" && strings.TrimSpace(ac.Text) != "false" {
+			// cover (emitted once per anchor at the end of the function): an assert clause at a
+			// statement that is unreachable on every path would hold vacuously
+			if r.coverPcs == nil {
+				r.coverPcs = map[string][]string{}
+				r.coverPos = map[string]string{}
+			}
+			k := fr.oblFunc() + "/vacuity/reach-" + fr.oblName(ac.Anchor)
+			if len(r.coverPcs[k]) < 40 {
+				dup := false
+				for _, p := range r.coverPcs[k] {
+					if p == st.pc {
+						dup = true
+					}
+				}
+				if !dup {
+					r.coverPcs[k] = append(r.coverPcs[k], st.pc)
+				}
+			}
+			r.coverPos[k] = r.eng.pos(ins.Pos())
+		}
 		if ac.Kind == "assert" {
 			fr.requireExpr(st, "assert", fr.oblFunc(), fr.oblName(ac.Anchor+":"+ac.Label(clip(ac.Text, 30))), ac.Expr, extra, ac.Tags, ins.Pos(), ac.Text)
 			continue
@@ -233,6 +266,7 @@ func (fr *Frame) call(st *State, ins ssa.Instruction, c *ssa.CallCommon, pos tok
 		} else if callee != nil && len(callee.Blocks) > 0 && r.eng.isModuleFunc(callee) && fr.depth < maxInlineDepth {
 			r.inlined[name] = true
 			sub := r.newFrame(callee, fr)
+			sub.callSite = ins
 			out := r.execFunc(sub, st, args, binds)
 			*st = *out.st
 			res = out.val
